@@ -574,6 +574,8 @@ func runLocal(kv map[string]string) string {
 		return runWrap(kv)
 	case "retain":
 		return runRetain(kv)
+	case "pools":
+		return runPools(kv)
 	}
 	return "ENV unknown mode"
 }
@@ -605,7 +607,7 @@ func childBinary() (string, string) {
 func run(input string) string {
 	kv := drv.KV(input)
 	switch kv["mode"] {
-	case "alias", "guns", "handover", "isolate", "ammo", "retain", "wrap":
+	case "alias", "guns", "handover", "isolate", "ammo", "retain", "wrap", "pools":
 		return runDeterministic(input, kv)
 	case "race", "hammer":
 		return runRace(input)
@@ -627,6 +629,16 @@ func class(input, obs string) string {
 			return ""
 		}
 		return "hammer/" + kv["obj"]
+	}
+	if kv["mode"] == "pools" {
+		if !strings.HasPrefix(obs, "sent=") {
+			return ""
+		}
+		c := fmt.Sprintf("pools/%d", len(strings.Split(kv["tags"], ";")))
+		if kv["par"] == "1" {
+			c += "/par"
+		}
+		return c
 	}
 	if kv["mode"] == "isolate" {
 		if !strings.HasPrefix(obs, "together=") {
@@ -975,6 +987,48 @@ func raceVariant(r *rand.Rand, k string, n, shots int) string {
 	return c
 }
 
+// poolsCase (round 6): 2..3 pools built from one skeleton (equal scenario / request names, different template texts),
+// 2..7 shots; every pool shoots at least once; `par` = one goroutine per pool instead of one goroutine for all
+func poolsCase(r *rand.Rand, par bool) string {
+	const letters = "abcdefghkmnpqrstuvwxyz0123456789"
+	np := 2 + r.Intn(2)
+	seen := map[string]bool{}
+	var tags []string
+	for len(tags) < np {
+		b := make([]byte, 2+r.Intn(5))
+		for i := range b {
+			b[i] = letters[r.Intn(len(letters))]
+		}
+		if !seen[string(b)] {
+			seen[string(b)] = true
+			tags = append(tags, string(b))
+		}
+	}
+	n := np + r.Intn(5)
+	ord := make([]byte, n)
+	for i := range ord {
+		if i < np {
+			ord[i] = byte('A' + i)
+		} else {
+			ord[i] = byte('A' + r.Intn(np))
+		}
+	}
+	r.Shuffle(n, func(i, j int) { ord[i], ord[j] = ord[j], ord[i] })
+	c := fmt.Sprintf("mode=pools kind=httpscen order=%s tags=%s nm=%08x", ord, strings.Join(tags, ";"), r.Uint32())
+	if par {
+		c += " par=1"
+	}
+	return c
+}
+
+func poolsCases(r *rand.Rand, k int) []string {
+	var out []string
+	for i := 0; i < k; i++ {
+		out = append(out, poolsCase(r, i%3 == 2))
+	}
+	return out
+}
+
 func genPlain(r *rand.Rand, tier string) []string {
 	out := []string{"mode=locks"}
 	out = append(out, aliasCases()...)
@@ -1079,6 +1133,11 @@ func genPlain(r *rand.Rand, tier string) []string {
 			}
 		}
 	}
+	if tier == "thorough" {
+		out = append(out, poolsCases(r, 40)...)
+	} else {
+		out = append(out, poolsCases(r, 6)...)
+	}
 	return out
 }
 
@@ -1139,6 +1198,11 @@ func genRace(r *rand.Rand, tier string) []string {
 				out = append(out, raceVariant(r, k, 2+r.Intn(23), 200+r.Intn(3000)))
 			}
 		}
+	}
+	if tier == "thorough" {
+		out = append(out, poolsCases(r, 20)...)
+	} else {
+		out = append(out, poolsCases(r, 3)...)
 	}
 	return out
 }
